@@ -271,6 +271,7 @@ def run_arch(ctx, n=None, n_app=None):
     elines, eouts, ecls = [], [], []
     olines, oouts, eolines, eoouts, aolines, aoouts = [], [], [], [], [], []
     ealines, eaouts, eacls = [], [], []
+    eaolines, eaoouts = [], []
     try:
         os.mkdir(os.path.join(tmp, "d"))
 
@@ -341,19 +342,23 @@ def run_arch(ctx, n=None, n_app=None):
             shape = rng.choice(["data", "data", "dirs-only", "single", "nothing"])
             base_members = {"data": _gen_members(rng), "dirs-only": [("d%d" % i, "dir", b"") for i in range(rng.choice([1, 2]))],
                             "single": [("one", "str", rng.randbytes(9))], "nothing": []}[shape]
-            buf = io.BytesIO()
+            buf = TraceIO()
             _real_session(rng, buf, "w", filters, None, base_members, rng.choice([3, 7, 64, 1000]), tmp, "eb%d" % it, header="encoded", identity=True)
             for k in range(rng.choice([1, 1, 2])):
                 base = buf.getvalue()
                 lab2, filters2 = rng.choice(chains)
                 am = rng.choice([_gen_members(rng, (1, 2, 3)), _gen_members(rng, (1, 2, 3)), [("ead%d" % k, "dir", b"")], []])
+                buf.ops = []
                 toks = _real_session(rng, buf, "a", filters2, None, am, rng.choice([3, 7, 64, 1000]), tmp, "ea%d_%d" % (it, k), header="encoded", identity=True)
                 ealines.append("ws.eapp %s %s" % (hx(base), toks))
                 eaouts.append(hx(buf.getvalue()))
+                eaolines.append("ws.eaops %s %s" % (hx(base), toks))
+                eaoouts.append(ops_tok(buf.ops))
                 eacls.append("base=%s/session=%d/%s->%s/members=%d" % (shape, k + 1, lab, lab2, len(am)))
     finally:
         shutil.rmtree(tmp, ignore_errors=True)
     ctx.correspond("ws.eapp", ealines, eaouts, eacls)
+    ctx.correspond("ws.eaops", eaolines, eaoouts, eacls)
     ctx.correspond("ws.arch", lines, outs, cls)
     ctx.correspond("ws.app", alines, aouts, acls)
     ctx.correspond("ws.enc", elines, eouts, ecls)
